@@ -248,10 +248,11 @@ def r7_warp_state(ctx, mi) -> None:
     assigned = {}
     for x in ast.walk(m.node):
       if isinstance(x, ast.Assign):
-        for t in x.targets:
-          d = dotted(t)
-          if d and d.startswith('self.') and d.count('.') == 1:
-            assigned.setdefault(d[5:], x)
+        for t0 in x.targets:
+          for t in (t0.elts if isinstance(t0, (ast.Tuple, ast.List)) else [t0]):
+            d = dotted(t)
+            if d and d.startswith('self.') and d.count('.') == 1:
+              assigned.setdefault(d[5:], x)
     if not assigned:
       continue
     un = ci.methods.get('unwarp')
@@ -262,10 +263,11 @@ def r7_warp_state(ctx, mi) -> None:
     def transfer(node, st, succ, lab):
       if node.kind == 'stmt' and isinstance(node.ast, ast.Assign):
         new = set(st)
-        for t in node.ast.targets:
-          d = dotted(t)
-          if d and d.startswith('self.') and d.count('.') == 1:
-            new.add(d[5:])
+        for t0 in node.ast.targets:
+          for t in (t0.elts if isinstance(t0, (ast.Tuple, ast.List)) else [t0]):
+            d = dotted(t)
+            if d and d.startswith('self.') and d.count('.') == 1:
+              new.add(d[5:])
         return frozenset(new)
       return st
     state = cfgmod.forward(g, frozenset(), transfer, lambda a, b: a & b)
@@ -388,35 +390,63 @@ def r3_pipeline(ctx, mi) -> None:
               construct=f'{fname}:{names}', func=f.qualname)
 
 
+def _sympy():
+  from vzstatic.rules.C15 import _sympy as f
+  return f()
+
+
 def r4_infeasible(ctx, mi) -> None:
+  """The value given to infeasible entries is nanmin - (positive amount), decided symbolically: the stored value is
+  unfolded through its definitions into an expression over nanmin/nanmax of the labels and handed to sympy with
+  nanmax = nanmin + r, r >= 0."""
   ci = mi.classes.get(NAN_REMOVER)
   m = ci.methods['warp']
-  bad_def = None
-  for x in ast.walk(m.node):
-    if isinstance(x, ast.Assign) and any(isinstance(t, ast.Name) and t.id == 'warped_bad_value' for t in x.targets):
-      bad_def = x.value
-  ok = False
-  if isinstance(bad_def, ast.BinOp) and isinstance(bad_def.op, ast.Sub) and 'nanmin' in unparse(bad_def.left, 0):
-    r = bad_def.right
-    # positive term: c1 * range + c2 with c1, c2 > 0
-    consts = [c.value for c in ast.walk(r) if isinstance(c, ast.Constant) and isinstance(c.value, (int, float))]
-    no_neg = not any(isinstance(u, ast.UnaryOp) and isinstance(u.op, ast.USub) for u in ast.walk(r)) and not any(
-        isinstance(b, ast.BinOp) and isinstance(b.op, ast.Sub) for b in ast.walk(r))
-    rng_ok = False
-    for x in ast.walk(m.node):
-      if isinstance(x, ast.Assign) and any(isinstance(t, ast.Name) and t.id == 'labels_range' for t in x.targets):
-        v = x.value
-        rng_ok = isinstance(v, ast.BinOp) and isinstance(v.op, ast.Sub) and 'nanmax' in unparse(v.left, 0) and 'nanmin' in unparse(v.right, 0)
-    ok = all(c > 0 for c in consts) and bool(consts) and no_neg and rng_ok and 'labels_range' in unparse(r, 0)
-  # assignment of the bad value precedes the shift
   g = cfgmod.CFG(m.node)
-  asg = [n for n in g.nodes if n.kind == 'stmt' and isinstance(n.ast, ast.Assign) and unparse(n.ast.value, 0) == 'warped_bad_value']
+  rd = flow.ReachingDefs(g)
+  # the store into the NaN positions: labels[<mask derived from isnan>] = V
+  stores = []
+  for n in g.nodes:
+    if n.kind == 'stmt' and isinstance(n.ast, ast.Assign) and len(n.ast.targets) == 1 and isinstance(n.ast.targets[0], ast.Subscript):
+      idx = flow.unfold(n.ast.targets[0].slice, n, g, rd)
+      if any(isinstance(c, ast.Call) and (dotted(c.func) or '').endswith('isnan') for c in ast.walk(idx)) and not isinstance(n.ast.value, ast.Constant):
+        stores.append(n)
+  if not stores:
+    raise AnalysisError('InfeasibleWarperComponent.warp: store into the NaN entries not found')
+  sp = _sympy()
+  mn, r = sp.Symbol('mn', real=True), sp.Symbol('r', nonnegative=True)
+
+  def sym(e: ast.AST):
+    if isinstance(e, ast.Constant) and isinstance(e.value, (int, float)):
+      return sp.Rational(str(e.value)) if isinstance(e.value, float) else sp.Integer(e.value)
+    if isinstance(e, ast.Call):
+      last = (dotted(e.func) or '').rsplit('.', 1)[-1]
+      if last == 'nanmin':
+        return mn
+      if last == 'nanmax':
+        return mn + r
+      if last in ('float', 'float64') and len(e.args) == 1:
+        return sym(e.args[0])
+    if isinstance(e, ast.BinOp) and isinstance(e.op, (ast.Add, ast.Sub, ast.Mult, ast.Div)):
+      l, rr = sym(e.left), sym(e.right)
+      return {ast.Add: l + rr, ast.Sub: l - rr, ast.Mult: l * rr, ast.Div: l / rr}[type(e.op)]
+    if isinstance(e, ast.UnaryOp) and isinstance(e.op, ast.USub):
+      return -sym(e.operand)
+    raise AnalysisError(f'infeasible value: cannot interpret `{unparse(e, 50)}`')
+  ok = True
+  why = ''
+  for n in stores:
+    v = flow.unfold(n.ast.value, n, g, rd)
+    gap = sp.simplify(mn - sym(v))
+    if gap.has(mn) or gap.is_positive is not True:
+      ok = False
+      why = f'nanmin - value = {gap} is not positive for every label range'
+  # assignment of the bad value precedes the shift
   shf = [n for n in g.nodes if n.kind == 'stmt' and isinstance(n.ast, ast.AugAssign) and '_shift' in unparse(n.ast.value, 0)]
-  order_ok = bool(asg and shf) and asg[0].id in g.dominators()[shf[0].id]
+  order_ok = bool(shf) and all(s_.id in g.dominators()[shf[0].id] for s_ in stores)
   ctx.check(ok and order_ok, 'R4', 'InfeasibleWarperComponent.warp', m.node,
             'NaN -> nanmin - (0.5*range + 1), then everything shifted',
-            'infeasible entries are not placed strictly below the worst feasible value (or are assigned after the shift)',
-            construct='infeasible-value', func=m.qualname)
+            'infeasible entries are not placed strictly below the worst feasible value (or are assigned after the shift)' +
+            (f': {why}' if why else ''), construct='infeasible-value', func=m.qualname)
 
 
 def r5_sharing(ctx) -> None:
